@@ -215,9 +215,17 @@ where
             let vring = &self.vrings[device_event as usize];
             #[cfg(feature = "verif-hooks")]
             vhost::verif::hit("w.before_read", &[self.thread_id as u64, device_event as u64]);
-            let enabled = vring
-                .read_kick()
-                .map_err(VringEpollError::HandleEventReadKick)?;
+            // A vring that is not started must not consume the notification: the wake-up may
+            // predate a GET_VRING_BASE, and the kick fd of a vring that is being started again
+            // (installed, queue not marked ready yet) may already hold kicks that have to be
+            // processed once the vring is started.
+            let enabled = if vring.get_ref().get_queue().ready() {
+                vring
+                    .read_kick()
+                    .map_err(VringEpollError::HandleEventReadKick)?
+            } else {
+                false
+            };
             #[cfg(feature = "verif-hooks")]
             vhost::verif::hit("w.after_read", &[self.thread_id as u64, device_event as u64, enabled as u64]);
 
